@@ -69,3 +69,14 @@ prop("C02",
      quick=dict(shards=2, timeout=400), thorough=dict(shards=16, timeout=1500),
      assumptions=COMMON + ["$Number$ templates on assets with non-constant durations are judged within the asset's duration variation, as the property states",
                            "single period only (multi-period is C06)"])
+
+prop("C05",
+     rule="rapid draws (asset bundled/generated incl. fractional-second and sub-second segments, MPD, type Number/Timeline-Time/Timeline-Number, "
+          "start, tsbd, ato, optional periods-per-hour, optional stop time) and an ordered set of 2-24 instants placed on both sides of "
+          "availability breakpoints, window-start crossings, across wraps and after the stop time. Relational oracle over the fetched MPDs: "
+          "first/last listed never move back, live edge = newest ended segment at every instant, publishTime <= now, non-decreasing, equal to "
+          "the availability instant of the newest listed segment (ms), equal publishTime => byte-identical documents, plain $Number$ single "
+          "period => all documents identical, after stop => static with duration stop-start and unchanging. Non-trivial = a set whose "
+          "instants are separated by >= 1 breakpoint (live edge differs); distinct by hash of the case.",
+     quick=dict(shards=2, timeout=400), thorough=dict(shards=16, timeout=1500),
+     assumptions=COMMON + ["publishTime is compared at millisecond resolution (floor..ceil of the exact change instant)"])
